@@ -6,7 +6,10 @@ import (
 	"context"
 	"errors"
 	"fmt"
+	"io"
+	"io/fs"
 	"sync"
+	"syscall"
 
 	"github.com/bufbuild/buf/private/pkg/storage"
 )
@@ -33,10 +36,36 @@ const (
 	FailLate  FaultMode = "late"  // close only: the underlying close happens, then an error is returned
 )
 
+// ErrKinds are the kinds of error an injected failure can carry. Code under test may treat some error
+// values specially (not-exist = "nothing there", EOF = "done", cancelled = "stop quietly"); a failed write-side
+// operation must be reported whatever its error looks like.
+var ErrKinds = []string{"", "ENOENT", "EEXIST", "ENOSPC", "EOF", "canceled"}
+
+// InjectedError builds the error of an injected failure of the given kind ("" = plain).
+func InjectedError(op, path, kind string) error {
+	var cause error
+	switch kind {
+	case "ENOENT":
+		cause = &fs.PathError{Op: op, Path: path, Err: syscall.ENOENT}
+	case "EEXIST":
+		cause = &fs.PathError{Op: op, Path: path, Err: syscall.EEXIST}
+	case "ENOSPC":
+		cause = &fs.PathError{Op: op, Path: path, Err: syscall.ENOSPC}
+	case "EOF":
+		cause = io.EOF
+	case "canceled":
+		cause = context.Canceled
+	default:
+		return fmt.Errorf("%s %s: %w", op, path, ErrInjected)
+	}
+	return fmt.Errorf("%s %s: %w", op, path, cause)
+}
+
 // Plan is one injected failure.
 type Plan struct {
-	Op   Op        `json:"op"`
-	Mode FaultMode `json:"mode"`
+	Op      Op        `json:"op"`
+	Mode    FaultMode `json:"mode"`
+	ErrKind string    `json:"err_kind,omitempty"` // one of ErrKinds
 }
 
 // FaultBucket wraps a ReadWriteBucket, records write-side operations and fails the planned ones.
@@ -54,8 +83,8 @@ func NewFaultBucket(b storage.ReadWriteBucket, plans ...Plan) *FaultBucket {
 	return &FaultBucket{ReadWriteBucket: b, counts: map[string]int{}, plans: plans}
 }
 
-// step records an op and returns the mode it must fail with ("" = proceed).
-func (f *FaultBucket) step(path, kind string) FaultMode {
+// step records an op and returns the mode it must fail with ("" = proceed) and the error kind.
+func (f *FaultBucket) step(path, kind string) (FaultMode, string) {
 	f.mu.Lock()
 	defer f.mu.Unlock()
 	key := kind + "\x00" + path
@@ -65,10 +94,10 @@ func (f *FaultBucket) step(path, kind string) FaultMode {
 	for _, p := range f.plans {
 		if p.Op == op {
 			f.Fired = append(f.Fired, p)
-			return p.Mode
+			return p.Mode, p.ErrKind
 		}
 	}
-	return ""
+	return "", ""
 }
 
 // FiredCount returns how many planned faults fired.
@@ -86,8 +115,8 @@ func (f *FaultBucket) Recorded() []Op {
 }
 
 func (f *FaultBucket) Put(ctx context.Context, path string, options ...storage.PutOption) (storage.WriteObjectCloser, error) {
-	if mode := f.step(path, "put"); mode != "" {
-		return nil, fmt.Errorf("put %s: %w", path, ErrInjected)
+	if mode, ek := f.step(path, "put"); mode != "" {
+		return nil, InjectedError("put", path, ek)
 	}
 	w, err := f.ReadWriteBucket.Put(ctx, path, options...)
 	if err != nil {
@@ -103,28 +132,28 @@ type faultWriter struct {
 }
 
 func (w *faultWriter) Write(p []byte) (int, error) {
-	switch w.f.step(w.path, "write") {
+	switch mode, ek := w.f.step(w.path, "write"); mode {
 	case FailShort:
 		n := 0
 		if len(p) > 1 {
 			n, _ = w.WriteObjectCloser.Write(p[:len(p)/2])
 		}
-		return n, fmt.Errorf("short write %s: %w", w.path, ErrInjected)
+		return n, InjectedError("short write", w.path, ek)
 	case "":
 		return w.WriteObjectCloser.Write(p)
 	default:
-		return 0, fmt.Errorf("write %s: %w", w.path, ErrInjected)
+		return 0, InjectedError("write", w.path, ek)
 	}
 }
 
 func (w *faultWriter) Close() error {
-	switch w.f.step(w.path, "close") {
+	switch mode, ek := w.f.step(w.path, "close"); mode {
 	case "":
 		return w.WriteObjectCloser.Close()
 	default:
 		// the data may or may not have reached the destination; the caller was told it failed
 		_ = w.WriteObjectCloser.Close()
-		return fmt.Errorf("close %s: %w", w.path, ErrInjected)
+		return InjectedError("close", w.path, ek)
 	}
 }
 
